@@ -3,6 +3,7 @@
    "Applied first in every handler" is a handler-level fact: see the handler model and the level-C
    freshness correspondence in the evidence of this property. *)
 Require Import Base Constants Fixed Curve Bank FixedLemmas BankLemmas CurveLemmas AccrualLemmas.
+Require Import Risk TransferFee Handlers SolvencyWorld HandlerWorld FreshnessHandlers.
 Local Open Scope Z_scope.
 
 (* share values never decrease, fee buckets never decrease (fees are never negative), program fees
@@ -47,3 +48,48 @@ Proof. vm_compute. eexists; split; [reflexivity|]. repeat split; reflexivity. Qe
 Print Assumptions C06_monotone_nonneg_fees_program_fee_off.
 Print Assumptions C06_idempotent.
 Print Assumptions C06_credit_le_charge_partial.
+
+(* ---- "every deposit, withdrawal, borrow, repayment, liquidation, bankruptcy settlement and balance closure first
+   brings the interest of each bank it transacts in up to the current time" — at instruction level (Handlers.v).
+   fresh_after w hb hb' d: the accrual of the pre-instruction bank at the instruction's clock succeeds with result
+   bk1, and the bank after the instruction is stamped last_update = clock, has liability share value = that of bk1
+   and asset share value = that of bk1 (d = true: <=, bankruptcy may socialise a loss).  HOk2 is the world
+   well-formedness invariant proved preserved in C01. *)
+Theorem C06_deposit_accrues_first :
+  forall w a b n up w' hb hb', HOk2 w -> 0 <= n -> h_deposit w a b n up = Ok w' ->
+  nth_bank w b = Ok hb -> nth_bank w' b = Ok hb' -> fresh_after w hb hb' false.
+Proof. exact deposit_fresh. Qed.
+Theorem C06_withdraw_accrues_first :
+  forall w a b n all w' hb hb', HOk2 w -> 0 <= n -> h_withdraw w a b n all = Ok w' ->
+  nth_bank w b = Ok hb -> nth_bank w' b = Ok hb' -> fresh_after w hb hb' false.
+Proof. exact withdraw_fresh. Qed.
+Theorem C06_borrow_accrues_first :
+  forall w a b n w' hb hb', HOk2 w -> 0 <= n -> h_borrow w a b n = Ok w' ->
+  nth_bank w b = Ok hb -> nth_bank w' b = Ok hb' -> fresh_after w hb hb' false.
+Proof. exact borrow_fresh. Qed.
+Theorem C06_repay_accrues_first :
+  forall w a b n all w' hb hb', HOk2 w -> 0 <= n -> h_repay w a b n all = Ok w' ->
+  nth_bank w b = Ok hb -> nth_bank w' b = Ok hb' -> fresh_after w hb hb' false.
+Proof. exact repay_fresh. Qed.
+Theorem C06_close_balance_accrues_first :
+  forall w a b w' hb hb', HOk2 w -> h_close_balance w a b = Ok w' ->
+  nth_bank w b = Ok hb -> nth_bank w' b = Ok hb' -> fresh_after w hb hb' false.
+Proof. exact close_balance_fresh. Qed.
+Theorem C06_bankruptcy_accrues_first :
+  forall w a b w' hb hb', HOk2 w -> h_bankruptcy w a b = Ok w' ->
+  nth_bank w b = Ok hb -> nth_bank w' b = Ok hb' -> fresh_after w hb hb' true.
+Proof. exact bankruptcy_fresh. Qed.
+Theorem C06_liquidation_accrues_both_banks_first :
+  forall w liqor liqee ab lb n w' ha hl ha' hl', HOk2 w -> 0 <= n -> liqor <> liqee ->
+  h_liquidate w liqor liqee ab lb n = Ok w' ->
+  nth_bank w ab = Ok ha -> nth_bank w lb = Ok hl -> nth_bank w' ab = Ok ha' -> nth_bank w' lb = Ok hl' ->
+  fresh_after w ha ha' false /\ fresh_after w hl hl' false.
+Proof. exact liquidate_fresh. Qed.
+
+Print Assumptions C06_deposit_accrues_first.
+Print Assumptions C06_withdraw_accrues_first.
+Print Assumptions C06_borrow_accrues_first.
+Print Assumptions C06_repay_accrues_first.
+Print Assumptions C06_close_balance_accrues_first.
+Print Assumptions C06_bankruptcy_accrues_first.
+Print Assumptions C06_liquidation_accrues_both_banks_first.
